@@ -79,6 +79,35 @@ def templates():
     return T
 
 
+def error_arg_templates():
+    """tail calls (direct and through carriers) and ordinary calls whose argument is an error value at one
+    iteration while the callee never reads that parameter: the call must yield the error
+    (lang/functions.md) - the trampoline may not bypass the rule.  (name, decls, call builder)"""
+    S = lambda s: {"k": "lit", "ty": "str", "v": s}
+    dec = OP("sub", V("n"), I(1))
+    stop = OP("le", V("n"), I(0))
+    boom = C("if", [OP("eq", V("n"), I(2)), C("error", [S("boom")], cast="int"), V("n")])
+    ps2 = [P("n", "int"), P("scratch", "int")]
+    T = []
+    T.append(("err_tail_if", [FN("t", ps2, "int", C("if", [stop, I(7), C("t", [dec, boom])]))], lambda n: C("t", [I(n), I(0)])))
+    T.append(("err_tail_or", [FN("t", ps2, "bool", OP("or", stop, C("t", [dec, boom])))], lambda n: C("t", [I(n), I(0)])))
+    T.append(("err_tail_if_error", [FN("t", ps2, "int", C("if_error", [C("if", [stop, I(7), C("error", [S("again")], cast="int")]), C("t", [dec, boom])]))],
+              lambda n: C("t", [I(n), I(0)])))
+    T.append(("err_tail_first_arg", [FN("t", [P("scratch", "int"), P("n", "int")], "int", C("if", [stop, I(7), C("t", [boom, dec])]))], lambda n: C("t", [I(0), I(n)])))
+    T.append(("err_nontail", [FN("t", ps2, "int", C("if", [stop, I(7), OP("add", I(0), C("t", [dec, boom]))]))], lambda n: C("t", [I(n), I(0)])))
+    T.append(("err_caught_outside", [FN("t", ps2, "int", C("if", [stop, I(7), C("t", [dec, boom])]))], lambda n: C("if_error", [C("t", [I(n), I(0)]), I(-5)])))
+    return T
+
+
+def error_arg_programs(limits=True):
+    progs = []
+    for name, decls, call in error_arg_templates():
+        for n in (0, 1, 2, 3, 5):
+            for ci, lim in enumerate([{}, {"depth": 8}, {"rec": 1}] if limits else [{}]):
+                progs.append(prog("%s.n%d.c%d" % (name, n, ci), decls, call(n), lim, "-"))
+    return progs
+
+
 def prog(pid, decls, call, lim, closed):
     ds = list(decls) + [{"k": "let", "n": "res", "ty": "", "annot": False, "e": call}]
     return {"id": pid, "decls": ds, "calls": [], "lim": dict(NOLIM, **lim), "closed": closed}
@@ -98,10 +127,11 @@ def run(chk, tier, seed):
             confs.append({"depth": 4, "rec": max(0, n - 1)})
             for ci, lim in enumerate(confs):
                 progs.append(prog("%s.n%d.c%d" % (name, n, ci), decls, call(n), lim, closed(n)))
+    progs += error_arg_programs()
     cases, r = corecheck.run_core(chk, progs, "c07-small", limits_of=corecheck.xv_limits)
     # design check on the model: with no limits the machine (with trampoline) returns the closed form
     for p in progs:
-        if p["lim"] == NOLIM:
+        if p["lim"] == NOLIM and p["closed"] != "-":
             c = cases[p["id"]]
             got = [b["v"] for b in c["binds"] if b["n"] == "res"]
             want = p["closed"]
